@@ -1438,7 +1438,8 @@ class EdgeQLSourceGenerator(codegen.SourceGenerator):
         self._visit_DropObject(node, 'MIGRATION')
 
     def visit_ResetSchema(self, node: qlast.ResetSchema) -> None:
-        self._write_keywords(f'RESET SCHEMA TO {node.target}')
+        self._write_keywords('RESET SCHEMA TO ')
+        self.visit(node.target)
 
     def visit_CreateModule(self, node: qlast.CreateModule) -> None:
         self._visit_CreateObject(node, 'MODULE')
@@ -2577,7 +2578,7 @@ class EdgeQLSourceGenerator(codegen.SourceGenerator):
         self, node: qlast.SessionResetAliasDecl
     ) -> None:
         self._write_keywords('RESET ALIAS ')
-        self.write(node.alias)
+        self.write(ident_to_str(node.alias))
 
     def visit_StartTransaction(self, node: qlast.StartTransaction) -> None:
         self._write_keywords('START TRANSACTION')
@@ -2606,17 +2607,17 @@ class EdgeQLSourceGenerator(codegen.SourceGenerator):
 
     def visit_DeclareSavepoint(self, node: qlast.DeclareSavepoint) -> None:
         self._write_keywords('DECLARE SAVEPOINT ')
-        self.write(node.name)
+        self.write(ident_to_str(node.name))
 
     def visit_RollbackToSavepoint(
         self, node: qlast.RollbackToSavepoint
     ) -> None:
         self._write_keywords('ROLLBACK TO SAVEPOINT ')
-        self.write(node.name)
+        self.write(ident_to_str(node.name))
 
     def visit_ReleaseSavepoint(self, node: qlast.ReleaseSavepoint) -> None:
         self._write_keywords('RELEASE SAVEPOINT ')
-        self.write(node.name)
+        self.write(ident_to_str(node.name))
 
     def visit_ExplainStmt(self, node: qlast.ExplainStmt) -> None:
         self._write_keywords('ANALYZE ')
